@@ -168,6 +168,53 @@ def check_case(rng, r, stats, tier):
             stats["fits"] += 2; stats["children"] += 1; stats["edited"] = stats.get("edited", 0) + 1
             compare(b2, v2, allf, "after update_discretizer edits: transform with n_jobs=2 vs n_jobs=1", fails,
                     edits=[[e[0], e[1], c17.arg_wire(e[2]), c17.arg_wire(e[3])] for e in edits])
+    # (f) unseen categories at transform time: a value one qualitative feature never saw (it goes to that feature's default
+    # group) but another feature knows must leave the other feature's output alone -- the other feature is transformed as by
+    # the object fitted on it alone
+    if base["error"] is None and len(ds["qualitative"]) >= 2:
+        # (a plain Discretizer with a small min_freq: few categories in the default groups, no carving on top)
+        cfg_f = dict(cfg, min_freq=min(cfg["min_freq"], 0.05))
+        full = sig_inprocess(ds, cfg_f, "discretizer", want_obj=True)
+        pick = None
+        if not isinstance(full, dict):
+            quals = [f for f in ds["qualitative"] if f in full.features and f in ds["X"].columns]
+            for a in quals:
+                va = list(full.values_orders[a].values())
+                if full.str_default not in va or not all(isinstance(v, str) for v in va):
+                    continue
+                for b in quals:
+                    foreign = [v for v in full.values_orders[b].values() if isinstance(v, str) and v not in va
+                               and v not in (full.str_nan, full.str_default)] if b != a else []
+                    # preferably a value that this feature does not hold in its own default group
+                    strong = [v for v in foreign if full.values_orders[b].get_group(v) != full.str_default]
+                    if foreign:
+                        pick = (a, b, rng.sample(strong or foreign, min(5, len(strong or foreign)))); break
+                if pick:
+                    break
+        if pick:
+            a, b, val = pick
+            single = sig_inprocess(restrict(ds, [b]), cfg_f, "discretizer", want_obj=True)
+            if not isinstance(single, dict) and b in single.features:
+                Xp = ds["X"].copy()
+                col = Xp[a].astype(object).tolist()
+                for j, i in enumerate(rng.sample(range(len(col)), min(10, len(col)))):
+                    col[i] = val[j % len(val)]
+                Xp[a] = pd.Series(col, dtype=object, index=Xp.index)
+                stats["fits"] += 2; stats["foreign_unseen"] = stats.get("foreign_unseen", 0) + 1
+                res = []
+                for o in (full, single):
+                    try:
+                        with warnings.catch_warnings():
+                            warnings.simplefilter("ignore")
+                            res.append([fitgen.cell(v) for v in o.transform(Xp)[b].tolist()])
+                    except Exception as e:
+                        res.append(f"{type(e).__name__}: {e}"[:200])
+                if res[0] != res[1]:
+                    rows = [i for i, (x, y) in enumerate(zip(res[0], res[1])) if x != y][:5] if isinstance(res[0], list) and isinstance(res[1], list) else []
+                    fails.append({"kind": "property", "what": "transform of a feature depends on another feature's unseen value "
+                                  "(a value unknown to one feature, known to this one)", "feature": b, "other": a, "value": val,
+                                  "rows": rows, "with_all": res[0] if not isinstance(res[0], list) else [res[0][i] for i in rows],
+                                  "alone": res[1] if not isinstance(res[1], list) else [res[1][i] for i in rows]})
     return fails
 
 
